@@ -446,9 +446,43 @@ func onePipe(o *opts, r *rng, s *summary, i int, pl *pipeline, distinct map[stri
 				}
 			}
 		}
+		if k == steps-1 {
+			// two stages share a plain input: edit it, commit only one of them, ask for the status of both
+			var sharers []*pstage
+			shared := ""
+			for _, src := range pl.sources {
+				var us []*pstage
+				for _, a := range pl.stages {
+					for _, in := range a.ins {
+						if in == src {
+							us = append(us, a)
+						}
+					}
+				}
+				if len(us) >= 2 {
+					sharers, shared = us, src
+				}
+			}
+			if shared != "" {
+				version++
+				must(os.WriteFile(filepath.Join(p.Root, shared), []byte(fmt.Sprintf("shared-v%d\n", version)), 0o644))
+				a := sharers[r.intn(len(sharers))]
+				t, w = p.do(Cmd{Kind: "commit", Targets: []string{a.file}}, sems, want(1, 13), nil, nil)
+				add(t, "commit one of two stages sharing a plain input")
+				t, w = p.do(Cmd{Kind: "status"}, sems, want(2, 6), nil, nil)
+				add(t, "status of stages sharing a plain input committed at different times")
+				s.count("history:shared-input;commit one;status")
+			}
+		}
 		if r.chance(1, 6) {
-			c := Cmd{Kind: []string{"status", "graph"}[r.intn(2)]}
-			t, w = p.do(c, sems, want(2), nil, nil)
+			c := Cmd{Kind: []string{"status", "status", "graph"}[r.intn(3)]}
+			sp := want(2)
+			if c.Kind == "status" {
+				// what it prints is checked per stage against the stage's OWN records (two stages may
+				// share a plain input and have committed it at different times)
+				sp = want(2, 6)
+			}
+			t, w = p.do(c, sems, sp, nil, nil)
 			add(t, c.Kind)
 		}
 		if r.chance(1, 4) {
